@@ -20,7 +20,8 @@ TreeFails(c, tr) ==
       tsites == SitesIn(T, d.left, d.right)
   IN {cl \in {"interval", "parent", "edge", "ns", "nt", "num_edges", "roots", "linked", "sites", "muts", "samples",
               "mrca", "depth", "bl", "tbl", "isdesc", "nlin", "pre", "post", "in", "level", "tasc", "tdesc", "minlex",
-              "leaves", "subpre", "subpost", "numroots", "mut_edges", "sackin", "colless", "b1", "path_length", "num_children"} :
+              "leaves", "subpre", "subpost", "numroots", "mut_edges", "sackin", "colless", "b1", "path_length", "num_children",
+              "distance_between", "ancestors", "siblings", "is_isolated", "parent_dict"} :
      ~ CASE cl = "interval" -> tr.left = d.left /\ tr.right = d.right /\ tr.index \in 0..(NumTrees(T) - 1)
          [] cl = "parent" -> Len(tr.parent) = n + 1 /\ tr.parent[n + 1] = NULL /\ \A u \in NodesOf(T) : tr.parent[u + 1] = par[u]
          [] cl = "edge" -> Len(tr.edge) = n + 1 /\ tr.edge[n + 1] = NULL /\ \A u \in NodesOf(T) : tr.edge[u + 1] = d.edge[u]
@@ -36,6 +37,19 @@ TreeFails(c, tr) ==
          \* [u, v, edges on the path] for node pairs with a common ancestor; -1 when they have none
          [] cl = "path_length" -> \A i \in 1..Len(tr.pathlen) : LET r == tr.pathlen[i] IN
                                     r[3] = (IF MRCAIn(par, r[1], r[2]) = NULL THEN -1 ELSE PathLen(par, r[1], r[2]))
+         \* [u, v, branch-length distance] for pairs with a common ancestor
+         [] cl = "distance_between" -> \A i \in 1..Len(tr.dist) : LET r == tr.dist[i] m == MRCAIn(par, r[1], r[2]) IN
+                                          m = NULL \/ r[3] = 2 * TimeOf(T, m) - TimeOf(T, r[1]) - TimeOf(T, r[2])
+         \* ancestors(u): the path from the parent of u to the top, nearest first
+         [] cl = "ancestors" -> \A u \in NodesOf(T) : tr.anc[u + 1] = Tail(PathUp(par, u))
+         \* siblings(u): the other children of u's parent (other roots for a root, nothing for a node outside the tree)
+         [] cl = "siblings" -> \A u \in NodesOf(T) : ToSet(tr.sibs[u + 1]) =
+                                  (IF par[u] # NULL THEN ChildrenIn(par, par[u]) \ {u} ELSE IF u \in d.roots THEN d.roots \ {u} ELSE {})
+                                  /\ Len(tr.sibs[u + 1]) = Cardinality(ToSet(tr.sibs[u + 1]))
+         [] cl = "is_isolated" -> \A u \in NodesOf(T) : (tr.isol[u + 1] = 1) = (par[u] = NULL /\ ChildrenIn(par, u) = {})
+         \* parent_dict: exactly the nodes that have a parent
+         [] cl = "parent_dict" -> /\ {r[1] : r \in ToSet(tr.pdict)} = {u \in NodesOf(T) : par[u] # NULL}
+                                  /\ \A i \in 1..Len(tr.pdict) : tr.pdict[i][2] = par[tr.pdict[i][1]]
          [] cl = "num_children" -> \A u \in NodesOf(T) : tr.nchild[u + 1] = Cardinality(ChildrenIn(par, u))
          [] cl = "linked" -> LinkedOK(tr, par, d.roots, n) /\ SibNullOK(tr, par, d.roots, n)
          [] cl = "sites" -> ToSet(tr.sites) = {i - 1 : i \in tsites} /\ IsStrictlySorted(tr.sites)
